@@ -1,5 +1,6 @@
 import CoreBGP.Model.Server
 import CoreBGP.Spec.Server
+import CoreBGP.Lemmas.Server
 /-!
 # C20 — the peer registry behaves as a consistent map and rejects unusable configurations
 
@@ -10,6 +11,7 @@ some sequential order of these steps; the harness checks that on the implementat
 -/
 namespace CoreBGP.Props.C20
 open CoreBGP CoreBGP.Model
+open CoreBGP.Lemmas.Server
 
 /-- abstraction map -/
 def abs (s : Server) : Spec.Registry := fun k => s.lookup k
@@ -22,24 +24,12 @@ def Inv (s : Server) : Prop :=
 /-- `AddPeer` validates exactly as the property says: remote address valid, local address unset or
 of the same family, both AS ≠ 0, hold ∉ (0, 3 s), port in 1..65535 -/
 theorem validate_iff (c : PeerCfg) :
-    (validateOptions c && validateConfig c) = true ↔ Spec.validConfig c := by
-  obtain ⟨⟨rk, rid⟩, las, ras, ⟨lk, lid⟩, hold, port, passive⟩ := c
-  simp only [validateOptions, validateConfig, Spec.validConfig, Addr.isValid, Addr.is4, Addr.is6]
-  cases rk <;> cases lk <;> simp <;> omega
+    (validateOptions c && validateConfig c) = true ↔ Spec.validConfig c :=
+  Lemmas.Server.validate_exact c
 
 /-- `NewServer` accepts exactly IPv4 router ids -/
 theorem new_server_iff (a : Addr) : newServerOK a = true ↔ a.kind = .v4 := by
   simp [newServerOK, Addr.is4]
-
-theorem lookup_append_new (ps : List (Addr × PeerCfg)) (k : Addr) (c : PeerCfg) (x : Addr) :
-    ((ps ++ [(k, c)]).find? (·.1 = x)).map (·.2) =
-      if (ps.find? (·.1 = x)).isSome then (ps.find? (·.1 = x)).map (·.2) else if x = k then some c else none := by
-  induction ps with
-  | nil => by_cases h : k = x <;> simp [List.find?, h, eq_comm]
-  | cons p ps ih =>
-    by_cases hp : p.1 = x
-    · simp [List.find?, hp]
-    · simp [List.find?, hp, ih]
 
 /-- `AddPeer` returns what the abstract map operation returns and commutes with `abs`; a rejected
 call leaves the state unchanged -/
@@ -51,60 +41,47 @@ theorem add_refines (s : Server) (c : PeerCfg) :
     (res = .invalid ↔ (e = some .invalidOptions ∨ e = some .invalidConfig)) ∧
     (e ≠ none → s' = s) := by
   have hv := validate_iff c
-  simp only [Server.addPeer, Spec.Registry.add]
-  by_cases ho : validateOptions c = true
-  · by_cases hc : validateConfig c = true
-    · have hvalid : Spec.validConfig c := hv.1 (by simp [ho, hc])
-      by_cases hex : (s.lookup c.remote).isSome = true
-      · simp [ho, hc, hvalid, hex, abs]
-      · simp only [ho, hc, hvalid, hex, abs]
-        simp only [Bool.not_true, Bool.false_eq_true, ↓reduceIte, not_true_eq_false, not_false_eq_true]
+  cases ho : validateOptions c with
+  | false =>
+    have hinv : ¬ Spec.validConfig c := fun h => by have := hv.2 h; simp [ho] at this
+    rw [addPeer_invalidOptions s c ho]
+    simp [Spec.Registry.add, hinv]
+  | true =>
+    cases hc : validateConfig c with
+    | false =>
+      have hinv : ¬ Spec.validConfig c := fun h => by have := hv.2 h; simp [ho, hc] at this
+      rw [addPeer_invalidConfig s c ho hc]
+      simp [Spec.Registry.add, hinv]
+    | true =>
+      have hvalid : Spec.validConfig c := hv.1 (by simp [ho, hc])
+      cases hex : (s.lookup c.remote).isSome with
+      | true =>
+        rw [addPeer_exists s c ho hc hex]
+        simp [Spec.Registry.add, hvalid, abs, hex]
+      | false =>
+        rw [addPeer_ok s c ho hc hex]
+        simp only [Spec.Registry.add, hvalid, abs, hex]
         refine ⟨?_, by simp, by simp, by simp, by simp⟩
         funext x
-        simp only [Server.lookup, Spec.Registry.insert]
-        rw [lookup_append_new]
-        by_cases hx : x = c.remote
-        · subst hx
-          simp only [Server.lookup] at hex
-          simp [hex]
-        · simp only [hx, ↓reduceIte]
-          cases h : (s.peers.find? (·.1 = x)) <;> simp
-    · have hinv : ¬ Spec.validConfig c := fun h => by
-        have := hv.2 h; simp [ho, hc] at this
-      simp [ho, hc, hinv, abs]
-  · have hinv : ¬ Spec.validConfig c := fun h => by
-      have := hv.2 h; simp [ho] at this
-    simp [ho, hinv, abs]
-
-theorem find_filter_ne (ps : List (Addr × PeerCfg)) (k x : Addr) :
-    (ps.filter (·.1 ≠ k)).find? (·.1 = x) = if x = k then none else ps.find? (·.1 = x) := by
-  induction ps with
-  | nil => simp
-  | cons p ps ih =>
-    by_cases hpk : p.1 = k
-    · by_cases hx : x = k
-      · simp [List.filter, hpk, ih, hx]
-      · have : ¬ p.1 = x := fun h => hx (h ▸ hpk)
-        simp [List.filter, hpk, ih, hx, List.find?, this]
-    · by_cases hpx : p.1 = x
-      · have : ¬ x = k := fun h => hpk (hpx ▸ h)
-        simp [List.filter, hpk, List.find?, hpx, this]
-      · simp [List.filter, hpk, List.find?, hpx, ih]
+        simp only [not_true_eq_false, Bool.false_eq_true, ↓reduceIte, Spec.Registry.insert]
+        exact lookup_insert_new s _ c rfl hex x
 
 /-- `DeletePeer` refines the abstract delete -/
 theorem delete_refines (s : Server) (k : Addr) :
     let (s', e) := s.deletePeer k
     let (r', ok) := (abs s).delete k
     abs s' = r' ∧ (ok = true ↔ e = none) ∧ (ok = false ↔ e = some .notExist) := by
-  simp only [Server.deletePeer, Spec.Registry.delete, abs]
   cases h : s.lookup k with
-  | none => simp [h]
+  | none =>
+    rw [deletePeer_none s k h]
+    simp [Spec.Registry.delete, abs, h]
   | some c =>
-    simp only [h, Option.isSome_some, ↓reduceIte, true_and]
+    rw [deletePeer_some s k c h]
+    simp only [Spec.Registry.delete, abs, h]
     refine ⟨?_, by simp, by simp⟩
     funext x
-    simp only [Server.lookup, Spec.Registry.erase, find_filter_ne]
-    by_cases hx : x = k <;> simp [hx]
+    simp only [Option.isSome_some, ↓reduceIte, Spec.Registry.erase]
+    exact lookup_filter_ne s _ k rfl x
 
 /-- `GetPeer` returns exactly what the map holds -/
 theorem get_refines (s : Server) (k : Addr) :
@@ -119,16 +96,8 @@ theorem list_refines (s : Server) (h : Inv s) (c : PeerCfg) :
   simp only [Server.listPeers, abs, Server.lookup, List.mem_map]
   constructor
   · rintro ⟨p, hp, rfl⟩
-    have hk := hkey p hp
-    induction s.peers with
-    | nil => simp at hp
-    | cons q qs ih =>
-      simp only [List.map_cons, List.nodup_cons, List.mem_map, not_exists, not_and] at hnd
-      rcases List.mem_cons.1 hp with rfl | hq
-      · simp [List.find?, hk]
-      · have hne : ¬ q.1 = p.2.remote := fun h => hnd.1 p hq (by rw [h, hk])
-        simp only [List.find?, hne, decide_false]
-        exact ih hnd.2 (fun p hp => hkey p (List.mem_cons_of_mem _ hp)) hq
+    rw [← hkey p hp, find_of_mem_nodup s.peers hnd p hp]
+    rfl
   · intro h
     cases hf : s.peers.find? (·.1 = c.remote) with
     | none => simp [hf] at h
@@ -149,60 +118,92 @@ def step (s : Server) : Op → Server
 
 theorem inv_init : Inv {} := by simp [Inv]
 
-theorem mem_filter_keys (ps : List (Addr × PeerCfg)) (k : Addr) :
-    (ps.filter (·.1 ≠ k)).map (·.1) = (ps.map (·.1)).filter (· ≠ k) := by
-  induction ps with
-  | nil => rfl
-  | cons p ps ih => by_cases h : p.1 = k <;> simp [List.filter, h, ih]
+theorem inv_add (s : Server) (c : PeerCfg) (h : Inv s) : Inv (s.addPeer c).1 := by
+  cases ho : validateOptions c with
+  | false => rw [addPeer_invalidOptions s c ho]; exact h
+  | true =>
+    cases hc : validateConfig c with
+    | false => rw [addPeer_invalidConfig s c ho hc]; exact h
+    | true =>
+      cases hex : (s.lookup c.remote).isSome with
+      | true => rw [addPeer_exists s c ho hc hex]; exact h
+      | false =>
+        rw [addPeer_ok s c ho hc hex]
+        obtain ⟨hnd, hkey, hs, hns⟩ := h
+        have hnot : c.remote ∉ s.peers.map (·.1) := by
+          intro hm
+          have := (find_isSome_iff s.peers c.remote).2 hm
+          simp only [Server.lookup, Option.isSome_map] at hex
+          rw [hex] at this
+          exact Bool.false_ne_true this
+        refine ⟨?_, ?_, ?_, ?_⟩
+        · show ((s.peers ++ [(c.remote, c)]).map (·.1)).Nodup
+          rw [List.map_append, List.nodup_append]
+          refine ⟨hnd, by simp, ?_⟩
+          intro a ha b hb
+          simp only [List.map_cons, List.map_nil, List.mem_singleton] at hb
+          subst hb
+          exact fun h => hnot (h ▸ ha)
+        · intro p hp
+          rcases List.mem_append.1 hp with hp | hp
+          · exact hkey p hp
+          · rw [List.mem_singleton] at hp; subst hp; rfl
+        · intro hserv
+          have hserv : s.serving = true := hserv
+          show (if s.serving = true then s.running ++ [c.remote] else s.running) =
+            (s.peers ++ [(c.remote, c)]).map (·.1)
+          rw [if_pos hserv, hs hserv, List.map_append]; rfl
+        · intro hserv
+          have hserv : s.serving = false := hserv
+          show (if s.serving = true then s.running ++ [c.remote] else s.running) = []
+          rw [hserv, hns hserv]; rfl
+
+theorem inv_del (s : Server) (k : Addr) (h : Inv s) : Inv (s.deletePeer k).1 := by
+  cases hl : s.lookup k with
+  | none => rw [deletePeer_none s k hl]; exact h
+  | some c =>
+    rw [deletePeer_some s k c hl]
+    obtain ⟨hnd, hkey, hs, hns⟩ := h
+    refine ⟨?_, ?_, ?_, ?_⟩
+    · show ((s.peers.filter (·.1 ≠ k)).map (·.1)).Nodup
+      rw [map_fst_filter_ne]; exact hnd.filter _
+    · intro p hp; exact hkey p (List.mem_filter.1 hp).1
+    · intro hserv
+      have hserv : s.serving = true := hserv
+      show s.running.filter (· ≠ k) = (s.peers.filter (·.1 ≠ k)).map (·.1)
+      rw [map_fst_filter_ne, hs hserv]
+    · intro hserv
+      have hserv : s.serving = false := hserv
+      show s.running.filter (· ≠ k) = []
+      rw [hns hserv]; rfl
+
+theorem inv_serve (s : Server) (h : Inv s) : Inv s.serveStart.1 := by
+  unfold Server.serveStart
+  split
+  · exact h
+  · obtain ⟨hnd, hkey, _, _⟩ := h
+    exact ⟨hnd, hkey, fun _ => rfl, fun h => Bool.noConfusion h⟩
+
+theorem inv_close (s : Server) (h : Inv s) : Inv s.close := by
+  obtain ⟨hnd, hkey, hs, hns⟩ := h
+  cases hserv : s.serving with
+  | true =>
+    have : s.close = { s with closed := true, serving := false, running := [], doneServing := true } := by
+      simp [Server.close, Server.serveEnd, hserv]
+    rw [this]
+    exact ⟨hnd, hkey, fun h => Bool.noConfusion h, fun _ => rfl⟩
+  | false =>
+    have : s.close = { s with closed := true } := by
+      simp [Server.close, hserv]
+    rw [this]
+    exact ⟨hnd, hkey, fun h => hs h, fun h => hns h⟩
 
 theorem inv_step (s : Server) (op : Op) (h : Inv s) : Inv (step s op) := by
-  obtain ⟨hnd, hkey, hs, hns⟩ := h
   cases op with
-  | add c =>
-    simp only [step, Server.addPeer]
-    split
-    · exact ⟨hnd, hkey, hs, hns⟩
-    · split
-      · exact ⟨hnd, hkey, hs, hns⟩
-      · split
-        · exact ⟨hnd, hkey, hs, hns⟩
-        · rename_i hex
-          have hnot : c.remote ∉ s.peers.map (·.1) := by
-            intro hm
-            apply hex
-            simp only [Server.lookup, Option.isSome_map]
-            obtain ⟨p, hp, hpk⟩ := List.mem_map.1 hm
-            exact List.find?_isSome.2 ⟨p, hp, by simp [hpk]⟩
-          refine ⟨?_, ?_, ?_, ?_⟩
-          · simp only [List.map_append, List.map_cons, List.map_nil]
-            exact List.nodup_append.2 ⟨hnd, by simp, by
-              intro a ha b hb; simp at hb; subst hb; exact fun h => hnot (h ▸ ha)⟩
-          · intro p hp
-            rcases List.mem_append.1 hp with hp | hp
-            · exact hkey p hp
-            · simp at hp; subst hp; rfl
-          · intro hserv; simp [hserv, hs hserv]
-          · intro hserv; simp [hserv, hns hserv]
-  | del k =>
-    simp only [step, Server.deletePeer]
-    split
-    · exact ⟨hnd, hkey, hs, hns⟩
-    · refine ⟨?_, ?_, ?_, ?_⟩
-      · rw [mem_filter_keys]; exact hnd.filter _
-      · intro p hp; exact hkey p (List.mem_filter.1 hp).1
-      · intro hserv; simp only at hserv; simp [hs hserv, mem_filter_keys]
-      · intro hserv; simp only at hserv; simp [hns hserv]
-  | serve =>
-    simp only [step, Server.serveStart]
-    split
-    · exact ⟨hnd, hkey, hs, hns⟩
-    · exact ⟨hnd, hkey, fun _ => rfl, fun h => by simp at h⟩
-  | close =>
-    simp only [step, Server.close, Server.serveEnd]
-    split
-    · exact ⟨hnd, hkey, fun h => by simp at h, fun _ => rfl⟩
-    · rename_i hserv
-      exact ⟨hnd, hkey, fun h => by simp at h; exact absurd h hserv, fun _ => hns (by simpa using hserv)⟩
+  | add c => exact inv_add s c h
+  | del k => exact inv_del s k h
+  | serve => exact inv_serve s h
+  | close => exact inv_close s h
 
 /-- the representation invariant — and with it "a present peer is running iff the server is
 serving" — holds in every reachable state, for every operation sequence, before, during and after
@@ -213,43 +214,64 @@ theorem inv_reachable (ops : List Op) : Inv (ops.foldl step {}) := by
   | nil => exact fun s h => h
   | cons op ops ih => exact fun s h => ih _ (inv_step s op h)
 
+theorem running_iff (s : Server) (h : Inv s) (k : Addr) :
+    k ∈ s.running ↔ (s.serving = true ∧ (abs s k).isSome) := by
+  obtain ⟨_, _, hs, hns⟩ := h
+  cases hserv : s.serving with
+  | true =>
+    rw [hs hserv, ← find_isSome_iff]
+    simp [abs, Server.lookup]
+  | false =>
+    rw [hns hserv]; simp
+
 /-- a peer added while serving starts operating; peers added before `Serve` start when `Serve` is
 called; a deleted peer is stopped: in every reachable state the running peers are exactly the
 present ones if serving, none otherwise -/
 theorem started_iff_serving (ops : List Op) (k : Addr) :
     let s := ops.foldl step {}
-    k ∈ s.running ↔ (s.serving = true ∧ (abs s k).isSome) := by
-  intro s
-  obtain ⟨_, _, hs, hns⟩ := inv_reachable ops
-  by_cases hserv : s.serving = true
-  · rw [hs hserv]
-    simp only [hserv, true_and, abs, Server.lookup, Option.isSome_map, List.mem_map]
-    constructor
-    · rintro ⟨p, hp, rfl⟩; exact List.find?_isSome.2 ⟨p, hp, by simp⟩
-    · intro h
-      obtain ⟨p, hp, hpk⟩ := List.find?_isSome.1 h
-      exact ⟨p, hp, by simpa using hpk⟩
-  · have : s.serving = false := by simpa using hserv
-    rw [hns this]; simp [this]
+    k ∈ s.running ↔ (s.serving = true ∧ (abs s k).isSome) :=
+  running_iff _ (inv_reachable ops) k
+
+theorem closed_step (s : Server) (op : Op) (h : s.closed = true) : (step s op).closed = true := by
+  cases op with
+  | add c =>
+    show (s.addPeer c).1.closed = true
+    unfold Server.addPeer
+    split
+    · exact h
+    · split
+      · exact h
+      · split <;> exact h
+  | del k =>
+    show (s.deletePeer k).1.closed = true
+    unfold Server.deletePeer
+    split <;> exact h
+  | serve =>
+    show s.serveStart.1.closed = true
+    unfold Server.serveStart
+    split <;> exact h
+  | close =>
+    show s.close.closed = true
+    unfold Server.close Server.serveEnd
+    dsimp only
+    split <;> rfl
 
 /-- `closed` is never reset -/
 theorem closed_stable (ops : List Op) (s : Server) (h : s.closed = true) : (ops.foldl step s).closed = true := by
   induction ops generalizing s with
   | nil => exact h
-  | cons op ops ih =>
-    apply ih
-    cases op <;> simp only [step, Server.addPeer, Server.deletePeer, Server.serveStart, Server.close, Server.serveEnd]
-    · split <;> [exact h; (split <;> [exact h; (split <;> exact h)])]
-    · split <;> exact h
-    · split <;> exact h
-    · split <;> rfl
+  | cons op ops ih => exact ih _ (closed_step s op h)
+
+theorem close_closed (s : Server) : s.close.closed = true := by
+  unfold Server.close Server.serveEnd
+  dsimp only
+  split <;> rfl
 
 /-- `Serve` after `Close` returns `ErrServerClosed`, whatever happens in between -/
 theorem serve_after_close (ops₁ ops₂ : List Op) :
     ((ops₂.foldl step ((ops₁.foldl step {}).close)).serveStart).2 = some .serverClosed := by
-  have h : (ops₂.foldl step ((ops₁.foldl step {}).close)).closed = true := by
-    apply closed_stable
-    simp only [Server.close, Server.serveEnd]; split <;> rfl
+  have h : (ops₂.foldl step ((ops₁.foldl step {}).close)).closed = true :=
+    closed_stable _ _ (close_closed _)
   simp [Server.serveStart, h]
 
 -- non-vacuity: a reachable state with two peers, serving
